@@ -13,6 +13,7 @@ from .. import common, solvex, cfgs, monitors as mon
 LEVEL = "exploration"
 MOD = "C10"
 SITE_EXEMPT = {}     # evaluation sites this check cannot reach (site -> reason); see solvex.site_floor
+EXIT_EXEMPT = {}     # exit sites this check cannot reach; see solvex.exit_floor
 
 
 class ExitTruthMonitor(solvex.Monitor):
@@ -170,6 +171,10 @@ def _configs(tier, salts):
                                 cfg = cfgs.base_cfg(prob, salt, npt=3, rhobeg=0.3, rhoend=1e-2, maxfun=maxfun, memo=False, noise_amp=0.02,
                                                     nsamples=ns, user_params=cfgs.user_params(3, up), tag_restart=rmode + "_avg")
                                 out.append((cfg, {"depth": 0}))
+        # geometries whose trust-region step can increase the model (the warning / error exits of calculate_ratio)
+        if salt == 0 or tier == "thorough":
+            for cfg, plan in cfgs.tr_increase_cfgs(salt, restarts=("none", "hard_new", "soft")):
+                out.append((dict(cfg, tag_restart="trinc"), plan))
         # the broad option bank over many budgets
         if salt == 0 or tier == "thorough":
             for name, cfg in cfgs.broad_cfgs(salt=salt, budgets=tuple(range(2, 62, 3 if tier == "quick" else 1)), reg_budgets=(3, 8),
@@ -195,6 +200,7 @@ def run(report, tier, seed):
     cps = _configs(tier, salts)
     res = solvex.explore(report, MOD, cps, classify=classify)
     solvex.site_floor(report, res["tags"], exempt=SITE_EXEMPT)
+    solvex.exit_floor(report, res["tags"], exempt=EXIT_EXEMPT)
     tags = res["tags"]
     cov = report.coverage
     msgs = sorted(t for t in tags if t.startswith("msg:"))
